@@ -393,7 +393,7 @@ def bce_loss_backward(grad: np.ndarray, y_pred: np.ndarray, y_true: np.ndarray) 
     term_0 = -(1 - y_true + epsilon) / ((1 - y_pred) + epsilon)
     term_1 = (y_true + epsilon) / (y_pred + epsilon)
     loss_grad = -(term_0 + term_1) * grad
-    return loss_grad
+    return unbroadcast(loss_grad, y_pred.shape)
 
 
 def bce_with_logits_loss_forward(y_pred: np.ndarray, y_true: np.ndarray) -> np.ndarray:
@@ -407,7 +407,7 @@ def bce_with_logits_loss_backward(grad: np.ndarray, y_pred: np.ndarray, y_true: 
     div1 = -dtn*np.exp(-tn) + (-1-dtn)*np.exp((-y_pred-tn))
     div2 = np.exp(-tn) + np.exp((-y_pred-tn))
     loss_grad = (1 - y_true) + dtn + (div1/(div2 + epsilon))
-    return grad * loss_grad
+    return unbroadcast(grad * loss_grad, y_pred.shape)
 
 
 def cross_entropy_loss_forward(y_pred: np.ndarray, y_true: np.ndarray) -> np.ndarray:
